@@ -37,6 +37,8 @@ struct Bounds {
     /// second word alphabet: code / stack addresses decorated with high bits (a signed or tagged pointer is
     /// NOT the address it would strip to: as a stack word it is data)
     tagged: bool,
+    /// first module menu of the space (the menus are mod_first .. mod_first + nmod)
+    mod_first: u64,
 }
 
 // odd on purpose: a return address with its low bit set (Thumb) must be reported as stored, bit included
@@ -78,14 +80,15 @@ fn decode(vi: usize, b: &Bounds, idx: u64) -> Case {
     radices.extend_from_slice(&[b.nctx, b.nvalid, nsym(arch, b), b.nmod, b.nplace]);
     let dg = unrank(idx, &radices);
     let n = b.n as usize;
-    let (ctx, valid, symmenu, modmenu, place) = (dg[n], dg[n + 1], sym_id(b, dg[n + 2]), dg[n + 3], dg[n + 4]);
+    let (ctx, valid, symmenu, modmenu, place) = (dg[n], dg[n + 1], sym_id(b, dg[n + 2]), dg[n + 3] + b.mod_first, dg[n + 4]);
     let size = b.n as u64 * p;
     let base = match place {
         0 => 0x6000_0000,
         1 => top - size,     // base + size = all-ones: the last byte is at top - 1
         _ => top - size + 1, // base + size = 2^32 (32-bit) or overflows u64 (memory is discarded)
     };
-    let modbase = if modmenu == 3 { top - (MODSZ - 1) } else { 0x4000_0000 };
+    // menu 4: the module is mapped at address 0 (its first page holds the addresses below 4096)
+    let modbase = if modmenu == 3 { top - (MODSZ - 1) } else if modmenu == 4 { 0 } else { 0x4000_0000 };
     let in_func = modbase + MOD_OFF_FUNC;
     // with two (adjacent) modules the "module but no function" address is the very first byte of the second
     // module (no symbol file): as a return address its lookup address (minus the call adjustment) is the last
@@ -149,7 +152,7 @@ fn sym_name(m: u64) -> &'static str {
 
 fn modules_of(c: &Case) -> Vec<(String, u64, u64)> {
     match c.modmenu {
-        0 | 3 => vec![("m".into(), c.modbase, MODSZ)],
+        0 | 3 | 4 => vec![("m".into(), c.modbase, MODSZ)],
         1 => vec![("m".into(), c.modbase, MODSZ), ("n".into(), c.modbase + MODSZ, MODSZ)],
         _ => vec![],
     }
@@ -339,10 +342,10 @@ fn main() {
         const MAIN_SYMS: &[u64] = &[0, 1, 2, 3, 4, 5, 6];
         const ALL_SYMS: &[u64] = &[0, 1, 2, 3, 4, 5, 6, 7, 10];
         const PINGPONG: &[u64] = &[10];
-        let b = if quick { Bounds { n: 4, k: 8, nctx: 8, nvalid: 3, nmod: 2, nplace: 2, syms: MAIN_SYMS, tagged: false } } else { Bounds { n: 5, k: 9, nctx: 8, nvalid: 3, nmod: 2, nplace: 2, syms: MAIN_SYMS, tagged: false } };
+        let b = if quick { Bounds { n: 4, k: 8, nctx: 8, nvalid: 3, nmod: 2, nplace: 2, syms: MAIN_SYMS, tagged: false, mod_first: 0 } } else { Bounds { n: 5, k: 9, nctx: 8, nvalid: 3, nmod: 2, nplace: 2, syms: MAIN_SYMS, tagged: false, mod_first: 0 } };
         // thorough only: the remaining menu values (validity singletons, no module / module at the top of
         // the address space, stack whose end wraps, word-per-frame CFI without memory access) on shorter stacks
-        let extras = Bounds { n: 3, k: 12, nctx: 9, nvalid: 7, nmod: 4, nplace: 3, syms: ALL_SYMS, tagged: false };
+        let extras = Bounds { n: 3, k: 12, nctx: 9, nvalid: 7, nmod: 4, nplace: 3, syms: ALL_SYMS, tagged: false, mod_first: 0 };
         let mut def = CheckDef::new(
             "C05",
             "exploration",
@@ -371,7 +374,7 @@ fn main() {
         }
         // both tiers: CFI ranges that hand control to each other without moving sp (a walk must not cycle)
         {
-            let pp = Bounds { n: 2, k: 8, nctx: 8, nvalid: 3, nmod: 2, nplace: 2, syms: PINGPONG, tagged: false };
+            let pp = Bounds { n: 2, k: 8, nctx: 8, nvalid: 3, nmod: 2, nplace: 2, syms: PINGPONG, tagged: false, mod_first: 0 };
             for (vi, (arch, os)) in VARIANTS5.iter().enumerate() {
                 let b = pp;
                 let len = b.k.pow(b.n) * b.nctx * b.nvalid * nsym(*arch, &b) * b.nmod * b.nplace;
@@ -381,7 +384,7 @@ fn main() {
         }
         // both tiers: stack words that are code / stack addresses with extra high bits set
         {
-            let tg = Bounds { n: 3, k: 8, nctx: 9, nvalid: 7, nmod: 2, nplace: 2, syms: MAIN_SYMS, tagged: true };
+            let tg = Bounds { n: 3, k: 8, nctx: 9, nvalid: 7, nmod: 2, nplace: 2, syms: MAIN_SYMS, tagged: true, mod_first: 0 };
             for (vi, (arch, os)) in VARIANTS5.iter().enumerate() {
                 let b = tg;
                 let len = b.k.pow(b.n) * b.nctx * b.nvalid * nsym(*arch, &b) * b.nmod * b.nplace;
@@ -392,7 +395,7 @@ fn main() {
         // both tiers: a symbol file with PUBLIC records only; CFI with a stack-pointer rule that cannot be evaluated
         {
             const PUBLIC_ONLY: &[u64] = &[11, 12, 13];
-            let pb = Bounds { n: 3, k: 8, nctx: 8, nvalid: 3, nmod: 2, nplace: 2, syms: PUBLIC_ONLY, tagged: false };
+            let pb = Bounds { n: 3, k: 8, nctx: 8, nvalid: 3, nmod: 2, nplace: 2, syms: PUBLIC_ONLY, tagged: false, mod_first: 0 };
             for (vi, (arch, os)) in VARIANTS5.iter().enumerate() {
                 let b = pb;
                 let len = b.k.pow(b.n) * b.nctx * b.nvalid * nsym(*arch, &b) * b.nmod * b.nplace;
@@ -404,11 +407,22 @@ fn main() {
         // for a scanner or a frame-pointer step that lands several words away from where it should
         {
             const NO_CFI: &[u64] = &[0, 1];
-            let lg = Bounds { n: 8, k: 3, nctx: 2, nvalid: 3, nmod: 2, nplace: 2, syms: NO_CFI, tagged: false };
+            let lg = Bounds { n: 8, k: 3, nctx: 2, nvalid: 3, nmod: 2, nplace: 2, syms: NO_CFI, tagged: false, mod_first: 0 };
             for (vi, (arch, os)) in VARIANTS5.iter().enumerate() {
                 let b = lg;
                 let len = b.k.pow(b.n) * b.nctx * b.nvalid * nsym(*arch, &b) * b.nmod * b.nplace;
                 let name = format!("long-stacks-{}-{}", arch.name(), os_name(*os));
+                def.spaces.push(Space::new(&name, len, move |idx, l| run_case(vi, &b, idx, l), move |idx| describe(vi, &b, idx)).chunked(4096));
+            }
+        }
+        // both tiers: the module mapped at address 0 (small integers on the stack point into it)
+        {
+            const NO_CFI: &[u64] = &[0, 1];
+            let lo = Bounds { n: 3, k: 12, nctx: 8, nvalid: 3, nmod: 1, nplace: 2, syms: NO_CFI, tagged: false, mod_first: 4 };
+            for (vi, (arch, os)) in VARIANTS5.iter().enumerate() {
+                let b = lo;
+                let len = b.k.pow(b.n) * b.nctx * b.nvalid * nsym(*arch, &b) * b.nmod * b.nplace;
+                let name = format!("module-at-zero-{}-{}", arch.name(), os_name(*os));
                 def.spaces.push(Space::new(&name, len, move |idx, l| run_case(vi, &b, idx, l), move |idx| describe(vi, &b, idx)).chunked(4096));
             }
         }
